@@ -60,7 +60,7 @@ Definition num_norm (raw : text) : text :=
 
 Fixpoint match3 (m : e3) (g : g3) : bool :=
   match m, g with
-  | X3Text raw, G3Text v => match chars3 raw with Some s => text_eqb s v | None => true end
+  | X3Text raw, G3Text v => match chars3 raw with Some s => text_eqb s v | None => false end
   | X3Num raw, G3Num s => text_eqb (num_norm raw) s
   | X3True, G3True | X3False, G3False | X3Null, G3Null => true
   | X3Ref x, G3Ref y => text_eqb x y
